@@ -150,9 +150,9 @@ unsigned int Interpolation::Locate(double x)
 	{
 		double boundary_tolerance_left	= 1e-2 * (x_values[1] - x_values[0]);
 		double boundary_tolerance_right = 1e-2 * (x_values[N - 1] - x_values[N - 2]);
-		if(fabs(x - domain[0]) < boundary_tolerance_left)
+		if(fabs(x - domain[0]) <= boundary_tolerance_left)
 			j = 0;
-		else if(fabs(x - domain[1]) < boundary_tolerance_right)
+		else if(fabs(x - domain[1]) <= boundary_tolerance_right)
 			j = N - 2;
 		else
 		{
